@@ -154,3 +154,28 @@ def templates(pyver, tier, rng=None):
             add("with-noline-%d" % k, "def f():\n    with a:\n" + "        y = 1\n" * k + "    return 1\n")
             add("try-finally-ret-%d" % k, "def f():\n    try:\n" + "        y = 1\n" * k + "        return y\n    finally:\n        z = 2\n")
     return out
+
+
+def twin_sequences(pyver):
+    """Sequences of near-twin programs that must be processed one after the other IN ONE PROCESS: code objects that
+    compare equal (or whose constants compare equal by ==) but differ in line table, filename or constant types.
+    They expose state kept between calls (caches keyed by == / hash)."""
+    seqs = []
+
+    def seq(id_, items):
+        seqs.append({"k": "seq", "id": "twin:" + id_, "items": [{"text": t, "filename": f} for t, f in items]})
+
+    body = "def f(a, b):\n    x = a + b\n%s    y = x * 2\n%s    return y\n"
+    seq("blank-line-moved", [(body % ("", "\n"), "<twin>"), (body % ("\n", ""), "<twin>"), (body % ("\n\n", ""), "<twin>")])
+    seq("filename", [("def f():\n    return [i for i in x]\n", "a.py"), ("def f():\n    return [i for i in x]\n", "b.py")])
+    pairs = [("(1, 2)", "(1.0, 2.0)"), ("(0, 1)", "(False, True)"), ("(0.0,)", "(-0.0,)"), ("0.0", "-0.0"), ("1", "True"), ("1", "1.0"),
+             ("'a'", "b'a'"), ("((1,), 'a')", "((1.0,), 'a')"), ("0j", "-0j"), ("(1e999 - 1e999)", "-(1e999 - 1e999)")]
+    for i, (a, b) in enumerate(pairs):
+        t = "def f(v=%s):\n    return v, %s\nz = [%s]\n"
+        seq("consts-%d" % i, [(t % (a, a, a), "<twin>"), (t % (b, b, b), "<twin>"), (t % (a, b, a + ", " + b), "<twin>")])
+        seq("in-set-%d" % i, [("def f(v):\n    return v in {%s, 5}\n" % a, "<twin>"), ("def f(v):\n    return v in {%s, 5}\n" % b, "<twin>")])
+    seq("lambda-lines", [("f = [lambda: 1,\n     lambda: 1]\n", "<twin>"), ("f = [lambda: 1, lambda: 1]\n", "<twin>")])
+    seq("same-program-thrice", [("class A:\n    def m(self): return 1\n", "<twin>")] * 3)
+    seq("docstring-vs-first-const", [("def f():\n    'text'\n", "<twin>"), ("def f():\n    return 'text'\n", "<twin>"), ("def f():\n    'text'\n    return 'text'\n", "<twin>")])
+    seq("kwonly-star", [("def f(*a, k=1): return a\n", "<twin>"), ("def f(a, *, k=1): return a\n", "<twin>"), ("def f(a, k=1): return a\n", "<twin>")])
+    return seqs
